@@ -1473,3 +1473,20 @@ package machine
 //@   ensures  some: !isnil(idxs) ==> r == u64(TSumIdx(t, idxs, len(idxs)))
 //@   loop 1 invariant acc: sum == u64(TSum(t, idx1))
 //@   loop 2 invariant acc: sum == u64(TSumIdx(t, idxs, idx2))
+
+// ---- C17 / C12 / C20: Export / Import ----
+// A machine rebuilt with Import has the exported ticks, active states by tick
+// parity, the exported state order and a machine tick one higher.
+//@ func (m *Machine) Import(data *Serialized) (err error)
+//@   props C17 C12 C20
+//@   abstracts the MachineRestored mutation goes through the public API
+//@   requires nn:    data != nil && !isnil(m.clock)
+//@   requires locks: unlocked(m.activeStatesMx) && unlocked(m.queueMx) && unlocked(m.schemaMx) && unlocked(m.tracersMx) && unlocked(m.logEntriesLock)
+//@   requires api:   QueueInv(m) && len(m.queue) < 65535 && m.queueTick + m.queueTicksPending < MaxU64 && (forall i int :: 0 <= i && i < len(m.tracers) ==> m.tracers[i] != nil)
+//@   requires data:  len(data.Time) == len(data.StateNames) && nodup(data.StateNames)
+//@   assigns  *
+//@   ensures  clocks: err == nil && !mem(data.StateNames, "MachineRestored") ==> (forall i int :: 0 <= i && i < len(data.Time) ==> m.clock[data.StateNames[i]] == data.Time[i])
+//@   ensures  active: err == nil && !mem(data.StateNames, "MachineRestored") ==> (forall s string :: mem(m.activeStates, s) <==> (exists i int :: 0 <= i && i < len(data.Time) && data.StateNames[i] == s && odd(data.Time[i])))
+//@   ensures  names:  err == nil && !mem(data.StateNames, "MachineRestored") ==> seqeq(m.stateNames, data.StateNames) && m.machineTick == u32(data.MachineTick + 1)
+//@   ensures  locks:  unlocked(m.activeStatesMx) && unlocked(m.queueMx) && unlocked(m.schemaMx)
+//@   loop 1 invariant restored: !isnil(m.clock) && (forall j int :: 0 <= j && j < idx1 ==> m.clock[data.StateNames[j]] == data.Time[j]) && (forall s string :: mem(m.activeStates, s) <==> (exists j int :: 0 <= j && j < idx1 && data.StateNames[j] == s && odd(data.Time[j])))
